@@ -5,6 +5,7 @@ import (
 	"errors"
 	"math/rand"
 	"strings"
+	"sync"
 	"time"
 
 	"github.com/dgryski/go-wyhash"
@@ -98,7 +99,10 @@ type RedisPubsubPeers struct {
 	// since the pubsub subscription is still active.
 	Done chan struct{}
 
-	peers     *generics.MapWithTTL[string, string]
+	peers *generics.MapWithTTL[string, string]
+	// mut protects hash and callbacks: they are used by the subscription
+	// goroutine, by the refresh goroutine and by whoever registers a callback
+	mut       sync.RWMutex
 	hash      uint64
 	callbacks []func()
 	sub       pubsub.Subscription
@@ -110,14 +114,23 @@ type RedisPubsubPeers struct {
 func (p *RedisPubsubPeers) checkHash() {
 	peers := p.peers.SortedKeys()
 	newhash := hashList(peers)
+	p.mut.Lock()
 	if newhash != p.hash {
 		p.hash = newhash
 		for _, cb := range p.callbacks {
 			go cb()
 		}
 	}
+	p.mut.Unlock()
 	p.Metrics.Gauge("num_peers", float64(len(peers)))
-	p.Metrics.Gauge("peer_hash", float64(p.hash))
+	p.Metrics.Gauge("peer_hash", float64(newhash))
+}
+
+// currentHash returns the hash of the peer list as it was last examined.
+func (p *RedisPubsubPeers) currentHash() uint64 {
+	p.mut.RLock()
+	defer p.mut.RUnlock()
+	return p.hash
 }
 
 func (p *RedisPubsubPeers) listen(ctx context.Context, msg string) {
@@ -154,7 +167,9 @@ func (p *RedisPubsubPeers) Start() error {
 	}
 
 	p.peers = generics.NewMapWithTTL[string, string](PeerEntryTimeout, nil)
+	p.mut.Lock()
 	p.callbacks = make([]func(), 0)
+	p.mut.Unlock()
 
 	p.topic = p.PubSub.FormatTopic("peers")
 
@@ -212,7 +227,7 @@ func (p *RedisPubsubPeers) Ready() error {
 				p.Logger.Debug().WithFields(map[string]any{
 					"ids":       p.peers.SortedKeys(),
 					"peers":     p.peers.SortedValues(),
-					"hash":      p.hash,
+					"hash":      p.currentHash(),
 					"num_peers": p.peers.Length(),
 					"self":      myaddr,
 				}).Logf("peer report")
@@ -262,6 +277,8 @@ func (p *RedisPubsubPeers) GetInstanceID() (string, error) {
 }
 
 func (p *RedisPubsubPeers) RegisterUpdatedPeersCallback(callback func()) {
+	p.mut.Lock()
+	defer p.mut.Unlock()
 	p.callbacks = append(p.callbacks, callback)
 }
 
